@@ -389,8 +389,8 @@ func run(r *ev.Run) {
 		"the identity of a rollback point is the seq internal key stored with it",
 		"with a positive sampling interval only the content checks apply (retention is time based)",
 	}
-	n := r.Scale(160, 1600)
-	r.MinDistinct = r.Scale(40, 400)
+	n := r.Scale(320, 1600)
+	r.MinDistinct = r.Scale(80, 400)
 	dir := r.TempDir()
 	g := r.Rng("scenarios")
 	var scs []scenario
